@@ -722,6 +722,9 @@ fn c03_from<X: Impl>(x: &X, reference: &Obs, s: u8, d1: u8, d2: u8, bad: &mut Ve
     c03_convert::<X, StructuredShortMessage>(x, &ox, bad);
     c03_convert::<X, Foreign3>(x, &ox, bad);
     c03_convert::<X, ForeignBytes>(x, &ox, bad);
+    // conversion INTO a third-party type whose own from_bytes is stricter than the provided one:
+    // to_other / from_other must not route through overridable methods
+    c03_convert::<X, ForeignStrict>(x, &ox, bad);
 }
 
 pub fn c03_triple(chk: &Check, s: u8, d1: u8, d2: u8) {
@@ -737,6 +740,8 @@ pub fn c03_triple(chk: &Check, s: u8, d1: u8, d2: u8) {
         c03_from(&st, &reference, s, d1, d2, &mut bad);
         c03_from(&f3, &reference, s, d1, d2, &mut bad);
         c03_from(&fb, &reference, s, d1, d2, &mut bad);
+        let fs = ForeignStrict { s, d1: u7(d1), d2: u7(d2) };
+        c03_from(&fs, &reference, s, d1, d2, &mut bad);
         bad
     });
     match r {
@@ -750,7 +755,7 @@ pub fn c03_triple(chk: &Check, s: u8, d1: u8, d2: u8) {
 }
 
 pub fn run_c03_sweep(chk: &Check) {
-    chk.rule("all 2^21 valid triples x 4 representations {Raw, Structured converted from it, Foreign3 (three getters only), ForeignBytes (overrides to_bytes)}: all 20 trait methods compared; to_other/from_other between all 16 ordered pairs commute with every accessor; only permitted difference: Structured reports canonical bytes. non-trivial = distinct triples on which at least one representation legitimately differs in bytes (canonicalisation) or that carry data fields");
+    chk.rule("all 2^21 valid triples x 5 representations {Raw, Structured converted from it, Foreign3 (three getters only), ForeignBytes (overrides to_bytes), ForeignStrict (overrides from_bytes to refuse the undefined status bytes)}: all 20 trait methods compared; to_other/from_other between all 25 ordered pairs commute with every accessor; only permitted difference: Structured reports canonical bytes. non-trivial = distinct triples on which at least one representation legitimately differs in bytes (canonicalisation) or that carry data fields");
     let nontrivial = AtomicU64::new(0);
     (0x80..=0xFFu8).into_par_iter().for_each(|s| {
         let mut nt = 0u64;
